@@ -778,34 +778,53 @@ class Exec(CallsMixin, Interp):
         return out
 
     def e_SetComp(self, node):
-        """{f(x) for x in seq}: the image set (membership by an existential over the source)."""
-        if len(node.generators) != 1 or node.generators[0].ifs:
-            raise Unsupported('set comprehension form')
-        g = node.generators[0]
+        return self.image_set(node.elt, node.generators)
+
+    def image_set(self, elt, generators, base=None):
+        """{f(x) for x in src if p(x)} (optionally united with `base`): membership by an existential over the source."""
+        if len(generators) != 1:
+            raise Unsupported('set comprehension with several generators')
+        g = generators[0]
         tag, src = self.iter_source(self.eval(g.iter))
         if tag == 'set':
             src, tag = self.set_to_seq(src), 'seq'
         if tag == 'empty':
-            return PyObj('emptyset')
-        if tag != 'seq':
+            return base if base is not None else PyObj('emptyset')
+        if tag == 'seq':
+            n = K.seq_len(src)
+            elem_at = lambda pos: K.seq_get(src, pos)
+            live_at = lambda pos: z3.BoolVal(True)
+        elif tag.startswith('map:'):
+            n = src.terms[1]
+            what = tag[4:]
+
+            def elem_at(pos):
+                key = K.map_key_at(src, pos)
+                return key if what == 'keys' else (K.map_get(src, key) if what == 'values'
+                                                   else K.vtuple([key, K.map_get(src, key)]))
+            live_at = lambda pos: K.map_live(src, pos)
+        else:
             raise Unsupported('set comprehension over %s' % tag)
         q = self.p.fresh('sc!i', z3.IntSort())
         saved = dict(self.env)
         saved_spec, self.spec = self.spec, True
         try:
-            self.assign_to(g.target, K.seq_get(src, q))
-            e = self.eval(node.elt)
+            self.assign_to(g.target, elem_at(q))
+            pred = z3.And(live_at(q), *[self.truth(self.eval(c)) for c in g.ifs])
+            e = self.eval(elt)
         finally:
             self.spec = saved_spec
             self.env = saved
-        kind = K.Set(e.kind)
+        kind = base.kind if base is not None else K.Set(e.kind)
+        e = K.coerce(e, kind.elem)
         out = self.p.fresh_value(kind, 'setcomp')
         self.assume_valid(out)
         xs = [self.p.fresh('sc!x', srt) for srt in e.kind.leaf_sorts()]
-        n = K.seq_len(src)
-        self.p.assume(K.forall(xs, K.nsel(out.terms[1], xs) == z3.Exists([q], z3.And(
-            0 <= q, q < n, *[x == t for x, t in zip(xs, e.terms)])), patterns=[K.nsel(out.terms[1], xs)]))
-        self.p.assume(K.forall([q], z3.Implies(z3.And(0 <= q, q < n), K.nsel(out.terms[1], e.terms))))
+        img = z3.Exists([q], z3.And(0 <= q, q < n, pred, *[x == t for x, t in zip(xs, e.terms)]))
+        if base is not None:
+            img = z3.Or(K.nsel(base.terms[1], xs), img)
+        self.p.assume(K.forall(xs, K.nsel(out.terms[1], xs) == img, patterns=[K.nsel(out.terms[1], xs)]))
+        self.p.assume(K.forall([q], z3.Implies(z3.And(0 <= q, q < n, pred), K.nsel(out.terms[1], e.terms))))
         return out
 
     def e_ListComp(self, node):
